@@ -271,3 +271,24 @@ def expand(f, expr, depth=6):
     if not isinstance(expr, ast.AST):
         return expr
     return Sub(depth).visit(copy.deepcopy(expr))
+
+
+def sources(f, expr):
+    """All names the value of `expr` can depend on inside f (transitively through every local assignment, unpacking and loops included)."""
+    src = set(names_in(expr))
+    changed = True
+    while changed:
+        changed = False
+        for nm in list(src):
+            for d in assignments(f, nm):
+                v = d[1]
+                if isinstance(v, (ast.For, ast.comprehension)):
+                    v = v.iter
+                elif isinstance(v, ast.AugAssign):
+                    v = v.value
+                if isinstance(v, ast.AST):
+                    new = names_in(v) - src
+                    if new:
+                        src |= new
+                        changed = True
+    return src
